@@ -49,18 +49,27 @@ C15Cases == {q \in UNION {[1..k -> EvalClass \ {"malformed-annotation"}] : k \in
 (* C16: shape of a policy-statement of the running configuration *)
 Active == {"absent", "true", "false"}
 Comment == {"none", "other", "fltr", "fltr-nospace", "fltr-bare", "fltr-bad", "fltr-empty", "prefix-only-similar",
-            "fltr-doublestar", "fltr-slashes", "fltr-unterminated"}       \* other decorations of the same annotation
+            "fltr-doublestar", "fltr-slashes", "fltr-unterminated",       \* other decorations of the same annotation
+            (* an expression that goes on on the next line of the comment (a line that begins with a blank, a tab   *)
+            (* or "+" continues the expression): broken before an operator, after one, and with "+"                  *)
+            "fltr-wrapped", "fltr-wrapped-after-op", "fltr-wrapped-plus"}
 Body == {"reject", "terms+reject", "accept", "empty",
          (* other content that is deactivated is other content all the same *)
          "reject+inactive-term", "inactive-term+reject"}
 AttrOrder == {"comment-first", "active-first"}
 Shapes == {[active |-> a, comment |-> c, body |-> b, order |-> o, dupxmlns |-> d, extra |-> x] :
              a \in Active, c \in Comment, b \in Body, o \in AttrOrder, d \in BOOLEAN, x \in BOOLEAN}
-ParseableComment(c) == c \in {"fltr", "fltr-nospace", "fltr-bare", "fltr-doublestar", "fltr-slashes", "fltr-unterminated"}
+ParseableComment(c) == c \in {"fltr", "fltr-nospace", "fltr-bare", "fltr-doublestar", "fltr-slashes", "fltr-unterminated",
+                              "fltr-wrapped", "fltr-wrapped-after-op", "fltr-wrapped-plus"}
 MarkedComment(c) == ParseableComment(c) \/ c \in {"fltr-bad", "fltr-empty"}
 Managed(sh) == sh.active # "false" /\ ParseableComment(sh.comment) /\ sh.body = "reject"
 Marked(sh) == sh.active # "false" /\ MarkedComment(sh.comment)
 ShapeCases == {[shape |-> sh, sel |-> Managed(sh), marked |-> Marked(sh)] : sh \in Shapes}
+
+(* C16 over histories: what one statement (one name) looks like in consecutive running configurations read by   *)
+(* ONE agent process.  Selection is a function of the configuration that is read, not of the ones read before. *)
+SClass == {"valid1", "valid2", "malformed", "inactive", "otherbody", "gone", "plain"}
+ShapeHistories == [1..(3 + Depth) -> SClass]
 
 RECURSIVE SetToSeq(_)
 SetToSeq(S) == IF S = {} THEN <<>> ELSE LET x == CHOOSE y \in S : TRUE IN <<x>> \o SetToSeq(S \ {x})
@@ -97,6 +106,7 @@ Out ==
     [] Family = "c03"   -> ToJson([cases |-> C03Cases])
     [] Family = "c15"   -> ToJson([cases |-> C15Cases])
     [] Family = "shape" -> ToJson([cases |-> ShapeCases])
+    [] Family = "shapehist" -> ToJson([cases |-> ShapeHistories])
     [] Family = "garble" -> ToJson([cases |-> GarbleCases])
     [] Family = "foreign" -> ToJson([cases |-> ForeignCases])
     [] Family = "style" -> ToJson([cases |-> StyleCases])
